@@ -21,6 +21,7 @@ type c39Actor struct {
 	name  string
 	code  string // evaluated with Eval; "" for check
 	check string // source for Evaler.Check
+	snap  bool   // evaluate with EvalCfg.Global set to the namespace snapshot taken after the setup (what eval &ns= and editor callbacks do)
 }
 
 type c39Scen struct {
@@ -56,6 +57,7 @@ func c39Setup() {
 
 func c39Scens() []*c39Scen {
 	A := func(name, code string) c39Actor { return c39Actor{name: name, code: code} }
+	S := func(name, code string) c39Actor { return c39Actor{name: name, code: code, snap: true} }
 	return []*c39Scen{
 		{name: "two-definitions", actors: []c39Actor{A("A", "var x = 1"), A("B", "var y = 2")}, final: "put $x $y"},
 		{name: "set-vs-read", setup: []string{"var x = 1"}, actors: []c39Actor{A("A", "set x = 2"), A("B", "put $x")}, final: "put $x"},
@@ -65,11 +67,19 @@ func c39Scens() []*c39Scen {
 		{name: "check-vs-use", actors: []c39Actor{A("A", "use ma; put $ma:v"), {name: "B", check: "use mb; put $mb:v $nonexistent"}}, final: "put done"},
 		{name: "del-vs-define", setup: []string{"var x = 1"}, actors: []c39Actor{A("A", "del x"), A("B", "var y = 2")}, final: "put $y"},
 		{name: "peach-vs-definition", actors: []c39Actor{A("A", "put a b | peach {|v| put $v } | count"), A("B", "var y = 2")}, final: "put $y"},
+		// two evaluations that start from the same namespace snapshot (grown by 1..4 earlier evaluations) and each declare a variable
+		{name: "snapshot-1-two-definitions", setup: []string{"var p1 = 1"}, actors: []c39Actor{S("A", "var a = from-A; nop; put $a"), S("B", "var b = from-B; nop; put $b")}, final: "put done"},
+		{name: "snapshot-3-two-definitions", setup: []string{"var p1 = 1", "var p2 = 2", "var p3 = 3"}, actors: []c39Actor{S("A", "var a = from-A; nop; put $a"), S("B", "var b = from-B; nop; put $b")}, final: "put done"},
+		{name: "snapshot-4-two-definitions", setup: []string{"var p1 = 1", "var p2 = 2", "var p3 = 3", "var p4 = 4"}, actors: []c39Actor{S("A", "var a = from-A; nop; put $a"), S("B", "var b = from-B; nop; put $b")}, final: "put done"},
+		{name: "snapshot-eval-ns-in-peach", setup: []string{"var p1 = 1", "var p2 = 2", "var p3 = 3"}, actors: []c39Actor{S("A", "var a = from-A; nop; put $a"), A("B", "var n = (ns [&]); eval &ns=$n &on-end={|m| set n = $m } 'var q1 = 1'; eval &ns=$n &on-end={|m| set n = $m } 'var q2 = 1'; eval &ns=$n &on-end={|m| set n = $m } 'var q3 = 1'; put x y | peach {|id| eval &ns=$n 'var w = '$id'; nop; put $w' } | order")}, final: "put done"},
 		{name: "three-definitions", actors: []c39Actor{A("A", "var x = 1"), A("B", "var y = 2"), A("C", "fn f { put 3 }")}, final: "put $x $y (f)"},
 	}
 }
 
-func c39RunActor(ev *Evaler, a c39Actor) string {
+func c39RunActor(ev *Evaler, a c39Actor, g *Ns) string {
+	if a.snap {
+		return a.name + ": " + c39EvalCfg(ev, a.code, g)
+	}
 	if a.check != "" {
 		perr, _, cerr := ev.Check(parse.Source{Name: "chk", Code: a.check}, nil)
 		return fmt.Sprintf("%s: check parse=%v compile=%v", a.name, perr != nil, cerr != nil)
@@ -77,12 +87,14 @@ func c39RunActor(ev *Evaler, a c39Actor) string {
 	return a.name + ": " + c39Eval(ev, a.code)
 }
 
-func c39Eval(ev *Evaler, code string) string {
+func c39Eval(ev *Evaler, code string) string { return c39EvalCfg(ev, code, nil) }
+
+func c39EvalCfg(ev *Evaler, code string, g *Ns) string {
 	port, collect, err := CapturePort()
 	if err != nil {
 		panic(err)
 	}
-	err = ev.Eval(parse.Source{Name: "v", Code: code}, EvalCfg{Ports: []*Port{DummyInputPort, port, DummyOutputPort}})
+	err = ev.Eval(parse.Source{Name: "v", Code: code}, EvalCfg{Ports: []*Port{DummyInputPort, port, DummyOutputPort}, Global: g})
 	vs, _ := collect()
 	es := vsErrString(err)
 	if err != nil && !strings.HasPrefix(es, "exc:") && !strings.HasPrefix(es, "pipeline") {
@@ -118,9 +130,10 @@ func c39Serial(sc *c39Scen) {
 				for _, s := range sc.setup {
 					c39Eval(ev, s)
 				}
+				g := ev.Global()
 				var results []string
 				for _, i := range perm {
-					results = append(results, c39RunActor(ev, sc.actors[i]))
+					results = append(results, c39RunActor(ev, sc.actors[i], g))
 				}
 				vsched.Logf("outcome %s", c39Outcome(results, c39Eval(ev, sc.final)))
 			})
@@ -142,16 +155,17 @@ func c39Body(sc *c39Scen) func() {
 		for _, s := range sc.setup {
 			c39Eval(ev, s)
 		}
+		g := ev.Global()
 		results := make([]string, len(sc.actors))
 		done := 0
 		for i, a := range sc.actors[1:] {
 			i, a := i+1, a
 			vsched.Go(func() {
-				results[i] = c39RunActor(ev, a)
+				results[i] = c39RunActor(ev, a, g)
 				done++
 			})
 		}
-		results[0] = c39RunActor(ev, sc.actors[0])
+		results[0] = c39RunActor(ev, sc.actors[0], g)
 		done++
 		vsched.WaitUntil("all-actors-done", func() bool { return done == len(sc.actors) })
 		vsched.Logf("outcome %s", c39Outcome(results, c39Eval(ev, sc.final)))
@@ -200,7 +214,7 @@ func TestVerifC39(t *testing.T) {
 		return
 	}
 	vk.Run(t, "C39", "exploration", func(c *vk.Ctx) {
-		c.Rule(fmt.Sprintf("9 scenarios of 2-3 goroutines using ONE Evaler concurrently (definitions, set vs read, del, use of the same / different / nested file modules, Check vs use, peach); every schedule with <=%d departures from the default goroutine; accesses to the Evaler's module table are modelled as non-atomic windows so that an unsynchronised conflicting pair is detected; class = distinct (scenario, outcome, races)", cfg.Bound))
+		c.Rule(fmt.Sprintf("13 scenarios of 2-3 goroutines using ONE Evaler concurrently (definitions, set vs read, del, use of the same / different / nested file modules, Check vs use, peach, and evaluations that start from one shared namespace snapshot - EvalCfg.Global and eval &ns= inside peach - and each declare variables); every schedule with <=%d departures from the default goroutine; accesses to the Evaler's module table are modelled as non-atomic windows so that an unsynchronised conflicting pair is detected; class = distinct (scenario, outcome, races)", cfg.Bound))
 		c.Assume("pkg/eval rewritten for the controlled scheduler; the module table Evaler.modules is the only unsynchronised shared map modelled with access windows (other shared state is reached through locks or atomics, which are scheduling points)",
 			"serial reference outcomes are computed by running every permutation of the actors sequentially on a fresh Evaler")
 		vshard.Run(c, c39Scenarios(), cfg)
